@@ -19,6 +19,15 @@ the model runner prints `<compared>` only):
                                 by given, reader+writer, reader only, owner, root on behalf of another user, posts to
                                 'sys' without a subscription), the k-th adapter call of the request failing, ageing;
                                 answer PUBX saved= res= marked= calls=<the adapter calls messagesMapper.Save made>
+  SVX m=.. kh= kq= kf= kc= cx= ca= cq= cf= cc= sq= sf= tq= tf= tk= body=none|form mh= url=<template>
+                                download request with EVERY field of the upload request (form fields travel in a multipart
+                                body, which net/http's FormValue parses for GET / HEAD too; tq / tf / tk: the `topic` parameter
+                                in the query / a form field / a cookie)      -> SVX <status> none|served:<k>
+  SETX <user> <t|me> <k|-> <pub|priv|both|none> <tpls>
+                                {set desc} with extra.attachments on a group topic / on 'me', the k-th adapter call of the
+                                request failing            -> SETX code=<c> calls=<adapter calls: U|T,S,L, ! = made to fail>
+  NEWACCX <u> <k|-> <tpls>      {acc user="new"} with extra.attachments, the k-th adapter call of the request failing
+                                                           -> NEWACCX code=<c> calls=<adapter calls: Q,C,H,A,D,L>
   USER/NEWACC/TOPIC/PUB/TAV/UAV/DELMSG/DELTOPIC/DELUSER/GC/DUMP      history of the link / GC part
      (NEWACC = {acc user="new"} with attachments from a session that is not logged in; TOPIC = {sub topic="new"};
       TAV / UAV = {set desc} on a group topic / on "me"; DELUSER of an owner removes its topics and their messages)
@@ -48,7 +57,8 @@ LAWS = {
     "linked-while-referenced": "a file listed with an accepted publish / avatar update stays linked and stored while the message / topic / user exists",
     "c16-attachment-link-all-or-nothing": "a stored message is left without links to its existing attachments because another listed attachment does not exist",
     "nothing-else-removed": "upload records and bytes disappear only through GC runs or failed uploads",
-    "linked-never-removed": "an attachment listed with an accepted message - whoever sent it: write-only subscriber, owner, root on behalf of a user, a post to 'sys' - is not garbage-collected (record and bytes) after the grace period while the message exists",
+    "linked-never-removed": "an attachment listed with an accepted message - whoever sent it: write-only subscriber, owner, root on behalf of a user, a post to 'sys' - or the avatar listed with the last acknowledged topic / account update is not garbage-collected (record and bytes) after the grace period while the message / topic / user exists",
+    "refused-no-effect-links": "a {set desc} or {acc user=new} that is answered with an error (denied, or the store failed while the topic / account / subscription was being updated or created) leaves upload records, link rows and stored bytes as they were: the avatar that was linked stays linked",
     "url-names-upload": "a URL yields an id only if its cleaned path is [serve prefix or nothing] + an 11-character name from [-_A-Za-z0-9] followed by nothing or a character outside that class",
     "no-panic": "the code under test panicked",
 }
@@ -221,6 +231,15 @@ class Gen:
            target=None):
         d = dict(m=m, kh=kh, kq=kq, kc=kc, cx=cx, ca=ca, cq=cq, cc=cc, sq=sq, mh=mh, asatt=asatt, acrm=acrm, url=url)
         self.add("SV " + " ".join("%s=%s" % kv for kv in d.items()))
+
+    def svx(self, url, m="GET", body="none", mh="fs", asatt="-", acrm="0", **a):
+        d = dict(m=m)
+        for k in ("kh", "kq", "kf", "kc", "cx", "ca", "cq", "cf", "cc", "sq", "sf", "tq", "tf", "tk"):
+            d[k] = a.get(k, "-")
+        if any(d[k] != "-" for k in ("kf", "cf", "sf", "tf")):
+            body = "form"
+        d.update(body=body, mh=mh, asatt=asatt, acrm=acrm, url=url)
+        self.add("SVX " + " ".join("%s=%s" % kv for kv in d.items()))
 
     def inflight(self, kind=None, n=None):
         self.nfid += 1
@@ -627,6 +646,207 @@ def sender_mode_cases_c16b(g, count, length):
         g.add("DUMP")
 
 
+# ---------------------------------------------------------------- download requests with every request field
+NOCRED_C16C = ([{}] + [{p: c} for p in ("cx", "ca", "cq", "cf", "cc") for c in ("zero", "unknown")]
+               + [{p: v} for p in ("sq", "sf") for v in ("anon", "dead")])
+TOPICS_C16C = [{}, {"tq": "newacc"}, {"tf": "newacc"}, {"tk": "newacc"}, {"tq": "other"}, {"tf": "other"}, {"tq": "Newacc"},
+               {"tq": "newacc", "tf": "other"}, {"tq": "other", "tf": "newacc"}, {"tq": "newacc", "tf": "newacc", "tk": "newacc"}]
+
+
+def download_full_cases_c16c(g):
+    """the matrix of the upload gate applied to the serve endpoint: GET / HEAD / OPTIONS (and methods it does not
+    implement) x API key at header / query / form / cookie x credential at X-Tinode-Auth / Authorization / query / form /
+    cookie / sid in query / form x the `topic` parameter (newacc and neighbours) in query / form / cookie"""
+    rng = g.rng
+    quick = g.ctx.tier == "quick"
+    fx = [g.up(kh="valid", cx="good1", kind=kind, body="form:%d:1:1" % rng.choice([1200, 2500])) for kind in ("png", "html", "text", "bin")]
+    # (a) every valid-key placement x every way of carrying NO valid credentials x the topic parameter: never served
+    for m in ("GET", "HEAD"):
+        for kp in ("kh", "kq", "kf", "kc"):
+            for co in NOCRED_C16C:
+                for to in (TOPICS_C16C if not quick else TOPICS_C16C[:4] + [rng.choice(TOPICS_C16C[4:])]):
+                    a = {kp: "valid"}
+                    a.update(co)
+                    a.update(to)
+                    g.svx(g.tpl(rng.choice(fx), "F"), m=m, **a)
+    # (b) the full cross product, the topic parameter drawn per request
+    keyopts = [{}] + [{p: k} for p in ("kh", "kq", "kf", "kc") for k in KEYS]
+    credopts = ([{}] + [{p: c} for p in ("cx", "ca", "cq", "cf", "cc") for c in CREDS_OK + CREDS_BAD]
+                + [{p: v} for p in ("sq", "sf") for v in ("live", "anon", "dead")])
+    combos = [(m, ko, co) for m in ("GET", "HEAD", "OPTIONS", "POST", "PUT", "DELETE", "BREW") for ko in keyopts for co in credopts]
+    if quick:
+        keep = [c for c in combos if c[0] in ("GET", "HEAD") and (not c[1] or "valid" in c[1].values())]
+        combos = rng.sample(keep, 420) + rng.sample(combos, 180)
+    for m, ko, co in combos:
+        a = dict(ko)
+        a.update(co)
+        a.update(rng.choice(TOPICS_C16C + [{"tq": "newacc"}, {"tf": "newacc"}]))
+        g.svx(g.tpl(rng.choice(fx), "F"), m=m, body=rng.choice(["none", "none", "form"]), **a)
+    # (c) precedence: two key placements, two credential placements, query before form
+    for _ in range(120 if quick else 4000):
+        ps = rng.sample(["kh", "kq", "kf", "kc"], 2)
+        cs = rng.sample(["cx", "ca", "cq", "cf", "cc", "sq", "sf"], 2)
+        a = {ps[0]: rng.choice(["valid", "badsig"]), ps[1]: rng.choice(["valid", "badsig", "short"])}
+        for c in cs:
+            a[c] = rng.choice(["live", "anon", "dead"]) if c[0] == "s" else rng.choice(CREDS_OK + CREDS_BAD)
+        a.update(rng.choice(TOPICS_C16C))
+        g.svx(g.tpl(rng.choice(fx), "F"), m=rng.choice(["GET", "GET", "HEAD"]), **a)
+    for sq in ("live", "anon", "dead", "-"):
+        for sf in ("live", "anon", "dead", "-"):
+            g.svx(g.tpl(rng.choice(fx), "F"), kh="valid", sq=sq, sf=sf, tq=rng.choice(["-", "newacc"]))
+            g.svx(g.tpl(rng.choice(fx), "F"), kf="valid", sq=sq, sf=sf, tf=rng.choice(["-", "newacc"]))
+    # (d) media handler configurations and URL shapes with the topic parameter present
+    for mh in ("none", "stubs307", "stubs200", "stubs404", "stube"):
+        for m in ("GET", "HEAD", "OPTIONS"):
+            for a in [{"kh": "valid", "cx": "good1"}, {"kh": "valid"}, {"kq": "valid", "tq": "newacc"}, {"kc": "valid", "tf": "newacc"}]:
+                g.svx(g.tpl(rng.choice(fx), "F"), m=m, mh=mh, acrm=rng.choice(["0", "1"]), **a)
+    for k in fx:
+        for shape in ("F", "id", "dot", "dd", "slash", "ext"):
+            g.svx(g.tpl(k, shape), kh="valid", tq="newacc")
+            g.svx(g.tpl(k, shape), kf="valid", cf="good2", tf="newacc", asatt=rng.choice(["-", "1"]))
+    g.add("DUMP")
+
+
+# ---------------------------------------------------------------- {set desc} with attachments under store faults
+def avatar_fault_cases_c16c(g, count, length):
+    """histories of avatar updates on a group topic and on 'me' in which the k-th adapter call of the {set} request is
+    made to fail, a non-owner tries, nothing changes, the grace period passes, the garbage collector runs and the old
+    and the new avatar are downloaded; every step is followed by a dump"""
+    rng = g.rng
+    if not hasattr(g, "starts_c16b"):
+        g.starts_c16b = []
+    for h in range(count):
+        g.starts_c16b.append(len(g.lines))          # stands alone: users, uploads, topic of its own
+        base = g.nuser = max(g.nuser, 2) + 1
+        a, b = base, base + 1
+        g.nuser = base + 1
+        g.add("USER %d" % a)
+        g.add("USER %d" % b)
+        files = [g.good_up(kind=rng.choice(["png", "jpeg", "gif"]), body="form:%d:1:1" % rng.choice([1300, 1800])) for _ in range(4)]
+        g.ntopic += 1
+        t = g.ntopic
+        first = files[0]
+        g.add("TOPIC %d %d %s" % (t, a, g.tpl(first) if rng.random() < 0.5 else "-"))
+        g.add("MEMBER %d %d %d JRWPS -" % (t, a, b))
+        g.add("DUMP")
+        cur = {}              # target -> upload listed with the last update that is expected to be acknowledged
+
+        def fresh(n=1):
+            for _ in range(n):
+                files.append(g.good_up(kind=rng.choice(["png", "jpeg", "gif"]), body="form:%d:1:1" % rng.choice([1300, 1800])))
+
+        def pick(tg):
+            c = [k for k in files if k != cur.get(tg)]
+            return rng.choice(c)
+
+        if g.lines[-3].split()[-1] != "-":
+            cur[str(t)] = first
+
+        def setx(u, tg, k, what, tpls):
+            g.add("SETX %d %s %s %s %s" % (u, "me" if tg.startswith("me") else tg, k, what, tpls))
+            g.add("DUMP")
+
+        def gc_and_download(tg):
+            g.add("AGE %d" % rng.choice([2, 2, 3, 24]))
+            g.add("GC past %d" % rng.choice([100, 100, 0]))
+            g.add("DUMP")
+            for k in sorted(set(old_new)):
+                g.sv(g.tpl(k, rng.choice(["F", "id"])), kh="valid", cx="good1", target=k)
+            # what was not linked is gone: go on with the linked uploads and new ones
+            keep = [k for k in set(cur.values()) if k is not None]
+            del files[:]
+            files.extend(keep)
+            fresh(3)
+            g.add("DUMP")
+
+        # blocks: an acknowledged update (the owner object has a linked avatar), then the adversarial request, then
+        # the grace period + the collector + downloads
+        blocks = []
+        for tg, u in ((str(t), a), ("me", a), ("me", b)):
+            blocks += [[("ok", tg, u), ("fault1", tg, u), ("gc", tg, u)], [("ok", tg, u), ("faultsub", tg, u), ("gc", tg, u)],
+                       [("ok", tg, u), ("faultlink", tg, u), ("gc", tg, u)]]
+        blocks += [[("ok", str(t), a), ("nonowner", str(t), b), ("gc", str(t), a)], [("ok", str(t), a), ("privonly", str(t), b), ("gc", str(t), a)],
+                   [("ok", str(t), a), ("none", str(t), a), ("gc", str(t), a)]]
+        blocks += [[("newacc", k_, 0) for k_ in ("-", "1", "2", "3", "4", "5")] + [("gc", str(t), a)]]
+        created = []
+        if h % 2:
+            rng.shuffle(blocks)
+        if g.ctx.tier == "quick":
+            # each history gets a part of the blocks, all histories together all of them (several times)
+            blocks = [bl for j, bl in enumerate(blocks) if (j + h) % 2 == 0]
+        script = [st_ for bl in blocks for st_ in bl]
+        steps = script + [None] * max(0, length - len(script))
+        old_new = []
+        for stp in steps:
+            if stp is None:
+                tg, u = rng.choice([(str(t), a), ("me", a), ("me", b), (str(t), b)])
+                r = rng.random()
+                what = ("ok" if r < 0.25 else "fault1" if r < 0.45 else "faultsub" if r < 0.55 else "faultlink" if r < 0.62 else
+                        "faultany" if r < 0.72 else "gc" if r < 0.84 else "none" if r < 0.86 else "newacc" if r < 0.93 else "privonly")
+                if u == b and tg != "me" and what != "newacc":
+                    what = rng.choice(["nonowner", "privonly", "nonowner"])
+                stp = (what, tg, u)
+                if what == "newacc":
+                    stp = (what, rng.choice(["-", "-", "1", "2", "3", "4", "5", "6"]), 0)
+            what, tg, u = stp
+            if what == "gc":
+                gc_and_download(tg)
+                old_new = []
+                continue
+            if what == "newacc":
+                # {acc user="new"} with an avatar: the account exists afterwards iff none of the four calls that
+                # can refuse the request was made to fail
+                g.nuser += 1
+                k = rng.choice(files)
+                old_new.append(k)
+                g.add("NEWACCX %d %s %s" % (g.nuser, tg, g.tpl(k) if rng.random() < 0.9 else "-"))
+                g.add("DUMP")
+                if tg == "-" or int(tg) >= 5:
+                    created.append(g.nuser)
+                    if tg == "-" or int(tg) > 5:
+                        cur["me%d" % g.nuser] = k
+                continue
+            wire = tg
+            tg = tg if tg != "me" else "me%d" % u
+            k = pick(tg)
+            tpls = g.tpl(k) if rng.random() < 0.85 else ",".join([g.bad_tpl(), g.tpl(k)])
+            old_new += [k] + ([cur[tg]] if cur.get(tg) else [])
+            if what == "ok":
+                setx(u, tg, "-", rng.choice(["pub", "pub", "both"]), tpls)
+                cur[tg] = k
+            elif what == "fault1":
+                setx(u, tg, "1", rng.choice(["pub", "both"]), tpls)
+            elif what == "faultsub":
+                setx(u, tg, "2", "both", tpls)
+            elif what == "faultlink":
+                w = rng.choice(["pub", "both"])
+                setx(u, tg, "2" if w == "pub" else "3", w, tpls)
+                cur[tg] = None            # the store failed while linking: neither avatar is owed
+            elif what == "faultany":
+                w = rng.choice(["pub", "both", "priv"])
+                kk = rng.choice([1, 2, 3, 4])
+                setx(u, tg, str(kk), w, tpls)
+                if w != "priv" and kk >= (3 if w == "pub" else 4):
+                    cur[tg] = k
+                elif w != "priv" and kk == (2 if w == "pub" else 3):
+                    cur[tg] = None
+            elif what == "nonowner":
+                setx(u, tg, rng.choice(["-", "-", "1"]), rng.choice(["pub", "both"]), tpls)
+            elif what == "privonly":
+                setx(u, tg, rng.choice(["-", "1", "2"]), "priv", tpls)
+            elif what == "none":
+                setx(u, tg, "-", "none", tpls)
+        g.add("AGE 2")
+        g.add("GC past 0")
+        g.add("DUMP")
+        g.add("DELTOPIC %d %d" % (a, t))
+        for u_ in [a, b] + created:
+            g.add("DELUSER %d" % u_)
+        g.add("DUMP")
+        g.add("GC zero 0")
+        g.add("DUMP")
+
+
 def delmsg_indices(g):
     """DELMSG lines were generated with random publish numbers; nothing to fix up: the driver
     and the runner both ignore numbers that are not publishes of that topic."""
@@ -689,7 +909,7 @@ def monitors(lines, answers):
             mime = unhx(w[2]).decode("latin1")
             if is_active(mime) and a[1] != "1":
                 fails.append(("active-attached", i, "type %r sent without Content-Disposition: attachment" % mime))
-        elif w[0] in ("UP", "SV"):
+        elif w[0] in ("UP", "SV", "SVX"):
             d = kvs(line)
             status, effect = a[1], a[2]
             worked = effect != "none"
@@ -706,6 +926,12 @@ def monitors(lines, answers):
                     fails.append(("c16-unauthenticated-newacc-upload", i, "upload %s with no credentials (topic=newacc)" % effect))
                 else:
                     fails.append(("gate-credentials", i, "effect %s without valid credentials" % effect))
+            if w[0] in ("SV", "SVX") and d["m"] in ("GET", "HEAD") and status == "200" and not worked:
+                # a 200 without bytes (HEAD, the media handler's own status) also lies behind both checks
+                if not anykey:
+                    fails.append(("gate-valid-key", i, "%s answered 200 without a valid API key" % d["m"]))
+                elif not anycred:
+                    fails.append(("gate-credentials", i, "%s answered 200 without valid credentials" % d["m"]))
             if d["m"] not in impl_methods and not (status == "405" and not worked):
                 fails.append(("methods", i, "method %s answered %s %s" % (d["m"], status, effect)))
             if status == "CRASH" and d.get("mh") != "none":
@@ -720,7 +946,7 @@ def monitors(lines, answers):
                 tot, lim = int(d["body"].split(":")[1]), int(d["lim"])
                 if lim > 0 and tot > lim and (worked or status == "200"):
                     fails.append(("size-limit", i, "body of %d bytes accepted with limit %d" % (tot, lim)))
-            if w[0] == "SV" and effect.startswith("served"):
+            if w[0] in ("SV", "SVX") and effect.startswith("served"):
                 if side.get("ct") != side.get("recmime"):
                     fails.append(("download-exact", i, "Content-Type differs from the type detected at upload"))
                 if effect == "served:?":
@@ -791,6 +1017,8 @@ def history_expectations(g, lines, answers):
     pub_topic = {}
     topic_owner = {}
     import re
+    prev_dump = None          # (files, links, disk) text of the last dump
+    refused_set = None        # a {set desc} that was answered with an error since the last dump: (line index, code)
     for i, (line, ans) in enumerate(zip(lines, answers)):
         w = line.split()
         cmp_, side = split(ans)
@@ -800,13 +1028,26 @@ def history_expectations(g, lines, answers):
             d = kvs(cmp_)
             files = dict(x.split(":") for x in d["files"].split(",")) if d["files"] != "-" else {}
             links = set(d["links"].split(",")) if d["links"] != "-" else set()
+            if refused_set is not None and prev_dump is not None:
+                # a refused {set desc} has no effect on upload records, link rows and bytes
+                at, code = refused_set
+                now_ = (d["files"], d["links"], d["disk"])
+                if now_ != prev_dump:
+                    pl = set(prev_dump[1].split(",")) - {"-"}
+                    fails.append(("refused-no-effect-links", at,
+                                  "{set desc} / {acc} answered %s changed the store: link rows lost %s, gained %s; records %s -> %s"
+                                  % (code, sorted(pl - links), sorted(links - pl), prev_dump[0], d["files"])))
+            refused_set = None
+            prev_dump = (d["files"], d["links"], d["disk"])
             if i > 0 and lines[i - 1].startswith("GC "):
-                # the GC law: an attachment of an accepted, still existing message survives the collector
+                # the GC law: an attachment of an accepted, still existing message (the avatar of the last
+                # acknowledged update of an existing topic / user) survives the collector
                 for l, at in list(owed.items()):
                     if l.split(">")[0] not in files:
                         fails.append(("linked-never-removed", i - 1,
-                                      "upload %s, listed with the accepted message of line %d (%s), was garbage-collected by %s while the message exists"
-                                      % (l.split(">")[0], at, lines[at][:70], lines[i - 1])))
+                                      "upload %s, listed with the accepted %s of line %d (%s), was garbage-collected by %s while the %s exists"
+                                      % (l.split(">")[0], "message" if ">m" in l else "avatar update", at, lines[at][:70], lines[i - 1],
+                                         "message" if ">m" in l else "topic / user")))
                         del owed[l]
             for l, at in list(held.items()):
                 if l not in links:
@@ -818,10 +1059,10 @@ def history_expectations(g, lines, answers):
             exist = {k for k, s in files.items()}
             done = {k for k, s in files.items() if s == "1"}
             continue
-        if w[0] not in ("PUB", "PUBX", "TAV", "UAV", "TOPIC", "NEWACC", "DELMSG", "DELTOPIC", "DELUSER"):
+        if w[0] not in ("PUB", "PUBX", "TAV", "UAV", "TOPIC", "NEWACC", "NEWACCX", "SETX", "DELMSG", "DELTOPIC", "DELUSER"):
             continue
         named = []
-        tpls = w[-1] if w[0] in ("PUB", "PUBX", "TAV", "UAV", "TOPIC", "NEWACC") else "-"
+        tpls = w[-1] if w[0] in ("PUB", "PUBX", "TAV", "UAV", "TOPIC", "NEWACC", "NEWACCX", "SETX") else "-"
         if tpls != "-":
             named = [g.names.get(t) for t in tpls.split(",")]
         if w[0] in ("PUB", "PUBX"):
@@ -846,9 +1087,44 @@ def history_expectations(g, lines, answers):
             # only the first resolvable attachment counts; a replaced avatar loses its link
             firstres = next((k for k in named if k is not None), None)
             if firstres is not None and firstres in exist and cmp_.split()[1] in ("200", "201"):
-                for l in [l for l in held if l.endswith(">" + tgt)]:
-                    del held[l]
-                held["%s>%s" % (firstres, tgt)] = i
+                for hd in (held, owed):
+                    for l in [l for l in hd if l.endswith(">" + tgt)]:
+                        del hd[l]
+                    hd["%s>%s" % (firstres, tgt)] = i
+            elif w[0] in ("TAV", "UAV") and cmp_.split()[1].isdigit() and int(cmp_.split()[1]) >= 400:
+                refused_set = (i, cmp_.split()[1])
+        elif w[0] == "NEWACCX":
+            # NEWACCX <u> <k|-> <tpls> -> NEWACCX code=<c> calls=<..>
+            a = kvs(cmp_)
+            code, calls = a.get("code", "?"), a.get("calls", "-")
+            tgt = "u" + w[1]
+            firstres = next((k for k in named if k is not None), None)
+            if code != "201":
+                refused_set = (i, code)          # an account creation that failed leaves no trace in the file slice
+            elif code == "201" and "L!" not in calls.split(",") and firstres is not None and firstres in exist:
+                for hd in (held, owed):
+                    hd["%s>%s" % (firstres, tgt)] = i
+        elif w[0] == "SETX":
+            # SETX <user> <t|me> <k|-> <what> <tpls> -> SETX code=<c> calls=<..>
+            a = kvs(cmp_)
+            code, calls = a.get("code", "?"), a.get("calls", "-")
+            tgt = ("u" + w[1]) if w[2] == "me" else ("t" + w[2])
+            firstres = next((k for k in named if k is not None), None)
+            if code.isdigit() and int(code) >= 400:
+                # refused: nothing may change (checked at the next dump); what was owed stays owed
+                refused_set = (i, code)
+            elif code == "200" and w[4] in ("pub", "both"):
+                if "L!" in calls.split(","):
+                    # the store failed while linking (error ignored by the handler): a store failure, neither
+                    # the old nor the new avatar is demanded
+                    for hd in (held, owed):
+                        for l in [l for l in hd if l.endswith(">" + tgt)]:
+                            del hd[l]
+                elif firstres is not None and firstres in exist:
+                    for hd in (held, owed):
+                        for l in [l for l in hd if l.endswith(">" + tgt)]:
+                            del hd[l]
+                        hd["%s>%s" % (firstres, tgt)] = i
         elif w[0] == "DELMSG":
             if cmp_.split()[1] == "200":
                 for ks in w[3].split(","):
@@ -1202,6 +1478,10 @@ def run(ctx):
         gate_cases(g)
         history_cases(g, 12 if quick else 400, 40 if quick else 45)
         sender_mode_cases_c16b(g, 8 if quick else 250, 16 if quick else 22)
+        gap0_c16c = len(g.lines)          # the request lines in between do not belong to a stand-alone history
+        download_full_cases_c16c(g)
+        g.gap_c16c = (gap0_c16c, len(g.lines))
+        avatar_fault_cases_c16c(g, 6 if quick else 120, 24 if quick else 32)
         # USER 1 must come before the FA lines (they authenticate as user 1)
         lines = ["USER 1"] + pure + g.lines[1:]
     rc, impl, err = run_impl(ctx, lines)
@@ -1233,7 +1513,7 @@ def run(ctx):
         if g is not None:
             nm = {}
             for l in rp.get("lines", []):
-                if l.split(None, 1)[0] in ("PUB", "PUBX", "TAV", "UAV", "TOPIC", "NEWACC") and l.split()[-1] != "-":
+                if l.split(None, 1)[0] in ("PUB", "PUBX", "TAV", "UAV", "TOPIC", "NEWACC", "NEWACCX", "SETX") and l.split()[-1] != "-":
                     for t in l.split()[-1].split(","):
                         nm[t] = g.names.get(t)
             rp["names"] = nm
@@ -1243,6 +1523,9 @@ def run(ctx):
         """replay of a stateful line = all stateful lines up to it"""
         k0 = lines[i].split(None, 1)[0]
         s0 = max([j for j in starts_c16b if j <= i], default=None)
+        gap = getattr(g, "gap_c16c", None)
+        if s0 is not None and gap is not None and len(pure) + gap[0] <= i < len(pure) + gap[1]:
+            s0 = None
         if s0 is not None:
             # a sender-mode history: its own lines, up to the dump that follows the failing line
             e = i
@@ -1253,7 +1536,7 @@ def run(ctx):
             return {"case": lines[i]}
         if k0 == "FA":
             return {"case": lines[i], "lines": ["USER 1", lines[i]]}
-        if k0 in ("UP", "SV"):
+        if k0 in ("UP", "SV", "SVX"):
             # a request line depends only on the users and on the uploads its URL template names
             ks = tpl_re.findall(kvs(lines[i]).get("url", ""))
             made = [maker[k] for k in dict.fromkeys(ks) if k in maker and maker[k] != lines[i]]
@@ -1316,9 +1599,10 @@ def run(ctx):
         k = l.split()[0]
         kinds[k] = kinds.get(k, 0) + 1
         c = a.split(" |")[0].split()
-        o = k + ":" + (" ".join(c[1:3]) if k in ("UP", "SV") else ("0" if c[1:] in (["0"], ["-"]) else "x") if k in ("ID", "FA") else "")
+        o = k + ":" + (" ".join(c[1:3]) if k in ("UP", "SV", "SVX") else (" ".join(c[1:3]) if k in ("SETX", "NEWACCX") else ""))
+        o = o if k in ("UP", "SV", "SVX", "SETX", "NEWACCX") else k + ":" + ( ("0" if c[1:] in (["0"], ["-"]) else "x") if k in ("ID", "FA") else "")
         outs[o] = outs.get(o, 0) + 1
-        if (k == "ID" and c[1] != "0") or (k in ("UP", "SV") and c[2] != "none") or k in ("PUB", "PUBX", "MEMBER", "P2P", "TAV", "UAV", "NEWACC", "GC", "DELMSG", "DELTOPIC", "DELUSER", "INFLIGHT") \
+        if (k == "ID" and c[1] != "0") or (k in ("UP", "SV", "SVX") and c[2] != "none") or k in ("PUB", "PUBX", "MEMBER", "P2P", "TAV", "UAV", "NEWACC", "NEWACCX", "SETX", "GC", "DELMSG", "DELTOPIC", "DELUSER", "INFLIGHT") \
                 or (k == "FA" and c[1] == "1") or (k == "CL" and c[1] != l.split()[1]):
             nontrivial.add(l)
     ctx.coverage.update({
@@ -1333,8 +1617,10 @@ def run(ctx):
                 "{pub} with attachment lists (noecho / head variants) by each of them, by a root session on behalf of members and outsiders, and to 'sys' by users without a subscription, "
                 "the k-th adapter call of the request made to fail (SubsUpdate and FileLinkAttachments at least once per history), memverif's log of the adapter calls of every publish compared with the call log of the Save model, "
                 "upload records aged past the grace period followed by the garbage collector's own call DeleteUnused(now - 1h, limit), dumps after every step; "
+                "download requests with every field of the upload request (SVX: every valid-key placement x every way of carrying no valid credentials x the topic parameter - newacc and neighbours - in query / form / cookie for GET and HEAD; the method x key x credential cross product with form fields in a multipart body, sampled in quick; precedence pairs; handler configurations; URL shapes); "
+                "%d seeded avatar histories under store faults: a group topic with a member and the 'me' topics of both users, blocks of [acknowledged {set desc public+attachments}; the adversarial request - k-th adapter call failing (core update, subscription update, link call), a non-owner, private only, nothing to change -; AGE + DeleteUnused(now - 1h) + downloads of the old and the new avatar], {acc user=new} with an avatar and the k-th adapter call failing, memverif's call log of every such request compared with the model's, dumps after every step; "
                 "the statements of the real MySQL adapter for GC / linking / FinishUpload executed on sqlite over enumerated tables of up to 3 uploads (old / new, 7 link sets each) x 6 (bound, limit) pairs; "
-                "non-trivial = an id was extracted / a request had an effect / a history operation ran" % (7 if quick else 11, 12 if quick else 400, 8 if quick else 250),
+                "non-trivial = an id was extracted / a request had an effect / a history operation ran" % (7 if quick else 11, 12 if quick else 400, 8 if quick else 250, 6 if quick else 120),
         "samples": [{"case": lines[i][:300], "impl": impl[i][:300]} for i in ([i for i in (1, 2, 3) if i < len(lines)] + ctx.rng.sample(range(len(lines)), min(6, len(lines))))],
         "traces_validated_against_impl": len(lines), "correspondence_mismatches": len(mism),
         "monitor_failures": len(fails), "search_pool": searched,
@@ -1347,6 +1633,7 @@ def run(ctx):
             "harness/overlay/server/db/memverif (in-memory adapter with the MySQL adapter's file/link semantics: modelled from db/mysql/adapter.go:3171-3396, not verified)",
             "harness/runner/r_c16.ml glue: text of a placement kind -> constructor (valid key / good token / bad signature ...), upload k <-> model id; for PUBX lines: the sender's (want, given) taken from the MEMBER / P2P / TOPIC lines (the mode algebra itself is C05/C07's), position k of the failing adapter call -> fault plan of the Save model, model time = sum of the AGE lines",
             "harness/overlay/server/zz_verif_c16b_test.go (sender-mode part of the driver: builds the {sub}/{set}/{pub} requests, reads memverif's call log and subscription rows) and memverif.AgeFilesC16b (moves updatedat of the upload records back)",
+            "harness/overlay/server/zz_verif_c16c_test.go (SVX: builds GET / HEAD requests with a multipart body, cookies and query for the real largeFileServe; SETX / NEWACCX: builds the {set} / {acc} requests, arms memverif.SetFault(k), reads memverif's call log, the stored public of the topic / user and the users table via memverif.DumpUsersC16c) and the runner's glue for these lines in r_c16.ml: the request environment of the {set desc} model (pre-check outcome, core / sub non-empty) is derived from the line - a group topic is changed by its owner only, the driver's values always differ from the stored ones -, position k of the failing call -> fault plan by a fault-free run of the model",
             "tools/props/c16.py law monitors (python restatement of the theorems, evaluated on the implementation's answers)",
             "outside the model: bytes on disk, http.DetectContentType, http.ServeContent, multipart parsing, MaxBytesReader (checked by the correspondence only)",
             "FinishUpload / StartUpload store failures are injected through memverif.SetFault; a media handler that is not configured is obtained by UseMediaHandler of an unknown name (recovered)",
